@@ -509,6 +509,19 @@ def _strip_unit_tail(items):
     return items
 
 
+def _always_returns(t):
+    """every path through t ends in `return`"""
+    if _is(t, "return"):
+        return True
+    if _is(t, "seq") and len(t) > 1:
+        return _always_returns(t[-1])
+    if _is(t, "if") and len(t) == 4:
+        return _always_returns(t[2]) and _always_returns(t[3])
+    if _is(t, "match") and len(t) > 2:
+        return all(_always_returns(a[-1]) for a in t[2:])
+    return False
+
+
 def _flip_not(t):
     """(if (not c) A B) ==> (if c B A)   (two-armed conditionals only)"""
     while _is(t, "if") and len(t) == 4 and t[3] != ("unit",) and _is(t[1], "un") and t[1][1] == "not" and len(t[1]) == 4:
@@ -554,6 +567,8 @@ def normalise(t):
             return ("bindopt", t[2], ("bind", "_f"), ("call", t[3][1], ("var", "_f")))
         if name == "Option::map" and len(t) == 4 and _is(t[3], "lambda") and len(t[3][1]) == 1:
             return ("mapopt", t[2], t[3][1][0], t[3][2])
+        if name == "Option::map" and len(t) == 4 and _is(t[3], "fnref"):
+            return ("mapopt", t[2], ("bind", "_f"), ("icall", t[3], ("var", "_f")))
     if h == "struct" and t[1] == "Range::Range":
         d = dict((x[0], x[1]) for x in t[2:])
         return ("range", d.get("start"), d.get("end"))
@@ -572,7 +587,7 @@ def normalise(t):
         items = _strip_unit_tail(flat)
         # early-exit guard:  (if c (return X)) ; rest   ==>  (if c X rest)
         for i, x in enumerate(items):
-            if _is(x, "if") and x[3] == ("unit",) and _is(x[2], "return") and i < len(items) - 1:
+            if _is(x, "if") and x[3] == ("unit",) and _always_returns(x[2]) and i < len(items) - 1:
                 rest = items[i + 1:]
                 rest_t = rest[0] if len(rest) == 1 else normalise(("seq",) + tuple(rest))
                 new = _flip_not(("if", x[1], x[2], rest_t))
@@ -585,6 +600,24 @@ def normalise(t):
         return ("seq",) + tuple(items)
     if h == "if":
         t = _flip_not(t)
+    if h == "set" and len(t) == 3 and isinstance(t[1], tuple) and t[1][0] in ("var", "field"):
+        # x = match s {p => a, q => b}   ==  match s {p => x = a, q => x = b}      (likewise if)
+        if _is(t[2], "match") and len(t[2]) > 2 and all(len(a) == 2 for a in t[2][2:]):
+            return normalise(("match", t[2][1]) + tuple((a[0], ("set", t[1], a[1])) for a in t[2][2:]))
+        if _is(t[2], "if") and len(t[2]) == 4 and t[2][3] != ("unit",):
+            return normalise(("if", t[2][1], ("set", t[1], t[2][2]), ("set", t[1], t[2][3])))
+    if h == "match" and len(t) == 4 and len(t[2]) == 3 and len(t[3]) == 2 and t[3][0] == "_":
+        # match s {P if g => a, _ => b}   ==  match s {P => if g {a} else {b}, _ => b}
+        t = ("match", t[1], (t[2][0], normalise(("if", t[2][1], t[2][2], t[3][1]))), t[3])
+    if h == "match" and len(t) == 4 and len(t[2]) == 2 and len(t[3]) == 2 and t[3][0] == "_" and _is(t[2][0], "pvar") and t[2][0][1] == "Option::Some":
+        t = ("match", t[1], t[2], (("pvar", "Option::None"), t[3][1]))
+    if h == "match" and len(t) == 4:
+        # match X { Some(v) => v, None => return Err }  ==> (try (lift X))
+        a, b = t[2], t[3]
+        for (s, n) in ((a, b), (b, a)):
+            if len(s) == 2 and len(n) == 2 and _is(s[0], "pvar") and s[0][1] == "Option::Some" and len(s[0]) == 3 and _is(s[0][2], "bind") and _is(n[0], "pvar") and n[0][1] == "Option::None":
+                if s[1] == ("var", s[0][2][1]) and n[1] == ("return", ("Err",)):
+                    return ("try", ("lift", t[1]))
     if h == "match" and len(t) == 4:
         # match X { Some(v) => Ok(v), None => Err }  ==> (lift X)
         a, b = t[2], t[3]
@@ -597,11 +630,66 @@ def normalise(t):
         return ("try", t[1])
     if h == "try" and _is(t[1], "Ok") and len(t[1]) == 2:
         return t[1][1]
+    if h == "try" and _is(t[1], "if") and len(t[1]) == 4:
+        return ("if", t[1][1], normalise(("try", t[1][2])), normalise(("try", t[1][3])))
+    if h == "try" and _is(t[1], "match") and len(t[1]) > 2:
+        return ("match", t[1][1]) + tuple(a[:-1] + (normalise(("try", a[-1])),) for a in t[1][2:])
+    if h == "try" and _is(t[1], "seq") and len(t[1]) > 2:
+        return t[1][:-1] + (normalise(("try", t[1][-1])),)
+    if h == "try" and _is(t[1], "call") and len(t[1]) == 4 and t[1][1] == "Result::map" and (_is(t[1][3], "lambda") or _is(t[1][3], "fnref")):
+        # r.map(f)?  ==  f(r?)
+        return normalise(("icall", t[1][3], ("try", t[1][2])))
+    if h == "try" and _is(t[1], "call") and len(t[1]) == 4 and t[1][1] == "Result::and_then" and (_is(t[1][3], "lambda") or _is(t[1][3], "fnref")):
+        # r.and_then(f)?  ==  f(r?)?
+        return ("try", normalise(("icall", t[1][3], ("try", t[1][2]))))
+    if h == "icall" and len(t) >= 2 and _is(t[1], "lambda") and len(t[1]) == 3 and len(t[1][1]) == len(t) - 2 and all(_is(b_, "bind") for b_ in t[1][1]):
+        env = {b_[1]: a_ for b_, a_ in zip(t[1][1], t[2:])}
+
+        def sv(x):
+            if isinstance(x, tuple):
+                if len(x) == 2 and x[0] == "var" and x[1] in env:
+                    return env[x[1]]
+                return tuple(sv(y) for y in x)
+            return x
+        return normalise(sv(t[1][2]))
     if h == "Ok" and len(t) == 2 and _is(t[1], "try") and _is(t[1][1], "lift"):
         return t[1][1]
+    if h == "Ok" and len(t) == 2 and _is(t[1], "seq") and len(t[1]) > 2:
+        return normalise(t[1][:-1] + (("Ok", t[1][-1]),))
+    if h == "Ok" and len(t) == 2 and _is(t[1], "match") and len(t[1]) > 2:
+        return ("match", t[1][1]) + tuple(a[:-1] + (normalise(("Ok", a[-1])),) for a in t[1][2:])
     if h == "Ok" and len(t) == 2 and _is(t[1], "if") and len(t[1]) == 4:
         c = t[1]
         return ("if", c[1], normalise(("Ok", c[2])), normalise(("Ok", c[3])))
+    return t
+
+
+def monad_tail(t, rec_names=()):
+    """Tail position of a function returning Result:  r.map(f) == Ok(f(r?)),  r.and_then(f) == f(r?),
+    eval(x) == Ok(eval(x)?)"""
+    if _is(t, "call") and len(t) == 4 and t[1] == "Result::map" and (_is(t[3], "lambda") or _is(t[3], "fnref")):
+        return ("Ok", normalise(("icall", t[3], ("try", t[2]))))
+    if _is(t, "call") and len(t) == 4 and t[1] == "Result::and_then" and (_is(t[3], "lambda") or _is(t[3], "fnref")):
+        return monad_tail(normalise(("icall", t[3], ("try", t[2]))), rec_names)
+    if _is(t, "call") and len(t) == 3 and t[1] in rec_names:
+        return ("Ok", ("ev", t[2]))
+    if _is(t, "if") and len(t) == 4:
+        return ("if", t[1], monad_tail(t[2], rec_names), monad_tail(t[3], rec_names))
+    if _is(t, "seq"):
+        return t[:-1] + (monad_tail(t[-1], rec_names),)
+    if _is(t, "match"):
+        return t[:2] + tuple(a[:-1] + (monad_tail(a[-1], rec_names),) for a in t[2:])
+    if _is(t, "return"):
+        return ("return", monad_tail(t[1], rec_names))
+    return t
+
+
+def mark_ev(t, rec_names):
+    """(try (call <tree-walk fn> x))  ==>  (ev x)"""
+    if isinstance(t, tuple):
+        t = tuple(mark_ev(x, rec_names) for x in t)
+        if len(t) == 2 and t[0] == "try" and _is(t[1], "call") and len(t[1]) == 3 and t[1][1] in rec_names:
+            return ("ev", t[1][2])
     return t
 
 
